@@ -1,6 +1,7 @@
 package soyhtml
 
 import (
+	"fmt"
 	"math"
 	"math/rand"
 	"sort"
@@ -169,6 +170,9 @@ func funcRange(v []data.Value) data.Value {
 		limit = int(v[1].(data.Int))
 	case 1:
 		limit = int(v[0].(data.Int))
+	}
+	if increment <= 0 {
+		panic(fmt.Errorf("range: the step must be positive, got %d", increment))
 	}
 
 	var indices data.List
